@@ -90,6 +90,22 @@ def run_one(chk, sc, cfgseed, how):
                 if not isinstance(got, (list, tuple)) or len(got) != len(boxes):
                     v = "step %d: %s returned %r for %d boxes" % (n + 1, what, type(got).__name__ if not isinstance(got, (list, tuple)) else len(got), len(boxes))
                     break
+                if what.startswith("iteration over"):
+                    # level iteration yields the boxes file by file: matched as a multiset (every box has its own values)
+                    def key(a):
+                        return (a.shape, np.ascontiguousarray(a).tobytes()) if isinstance(a, np.ndarray) else None
+                    pool_ = {}
+                    for b in boxes:
+                        shp = tuple(gamma.box_shape(aps[dn]["levels"][lv]["boxes"][b]))
+                        w = [regs[dn].array_of(("A", lv, b + 1, c + 1)).reshape(shp, order="F") for c in comps]
+                        w = w[0] if not isinstance(fsel, (list, slice)) else np.stack(w, axis=-1)
+                        pool_[key(w)] = b
+                    order = [pool_.get(key(a)) for a in got]
+                    if None in order or sorted(order) != sorted(boxes):
+                        v = "step %d: %s made in directory run_%s (after %r) does not yield exactly the boxes of ./%s there" % (
+                            n + 1, what, dn, [o["op"] + ":" + o["asked"] for o in sc["ops"][:n]], NAME)
+                        break
+                    boxes = order
                 for arr, b in zip(got, boxes):
                     shape = tuple(gamma.box_shape(aps[dn]["levels"][lv]["boxes"][b]))
 
